@@ -772,6 +772,11 @@ class ConditionBinaryOp(ConditionLike):
         return null_condition_binary_check(*conditions) or super().__new__(cls)
 
     def __init__(self, *conditions):
+        if null_condition_binary_check(*conditions) is not None:
+            # `__new__` returned one of the existing operands, which must not be
+            # re-initialised (it would become its own child).
+            return
+
         super().__init__()
 
         self.children = conditions
